@@ -43,6 +43,14 @@ func literalValueFocusSchema() *schema.BodySchema {
 	}
 	// type declarations, also written compactly (nothing between the last type and the closing bracket)
 	attrs["td"] = &schema.AttributeSchema{IsOptional: true, Constraint: schema.TypeDeclaration{}}
+	// attribute names that differ in letter case only (legal in HCL and cty): wherever names are listed they are in byte order
+	attrs["tdc"] = &schema.AttributeSchema{IsOptional: true, Constraint: schema.TypeDeclaration{}}
+	// values that are exactly one interpolation of a literal
+	attrs["tw_num"] = &schema.AttributeSchema{IsOptional: true, Constraint: schema.AnyExpression{OfType: cty.String}}
+	attrs["tw_bool"] = &schema.AttributeSchema{IsOptional: true, Constraint: schema.AnyExpression{OfType: cty.DynamicPseudoType}}
+	attrs["tw_str"] = &schema.AttributeSchema{IsOptional: true, Constraint: schema.AnyExpression{OfType: cty.String}}
+	attrs["lt_case"] = &schema.AttributeSchema{IsOptional: true, Constraint: schema.LiteralType{Type: cty.Object(map[string]cty.Type{
+		"id": cty.String, "Id": cty.Number, "ID": cty.Bool, "title": cty.String, "Zone": cty.String})}}
 	return &schema.BodySchema{Attributes: attrs, Blocks: map[string]*schema.BlockSchema{
 		"inner": {Body: &schema.BodySchema{Attributes: attrs}}}}
 }
@@ -77,8 +85,13 @@ func literalValueFocusScenario(r *rand.Rand) *Scenario {
 		}
 	}
 	write("")
+	// (written without a random draw)
+	sb.WriteString("tdc = object({ name = string, Name = number, NAME = bool, other = string, Zeta = bool })\n")
+	sb.WriteString("lt_case = { id = \"a\", Id = 1, ID = true, title = \"t\", Zone = \"z\" }\n")
+	sb.WriteString("tw_num = \"${3}\"\ntw_bool = \"${true}\"\ntw_str = \"${\"foo\"}\"\n")
 	sb.WriteString("inner {\n")
 	write("  ")
+	sb.WriteString("  lt_case = \n")
 	sb.WriteString("}\n")
 	src := sb.String()
 	w := newWorld()
